@@ -42,7 +42,7 @@ let parse_entry () =
   | "E" ->
     let c = next_int () in let code = next_int () in let a = next () in let a05 = next () in
     Some { e_cat = cat_of_int c; e_code = nat_of_int code; e_a02 = b1 a 0; e_a98 = b1 a 1; e_a98r = b1 a 2;
-           e_a99 = b1 a 3; e_a99d = b1 a 4; e_a99c = b1 a 5; e_a05 = bits a05 }
+           e_a99 = b1 a 3; e_a99d = b1 a 4; e_a99c = b1 a 5; e_a05 = bits a05; e_off = b1 a 6 }
   | t -> raise (Bad ("entry " ^ t))
 
 let parse_adv () =
@@ -125,7 +125,7 @@ let print_file (f : file) : string =
             | None -> add "N"
             | Some e ->
               add "E"; add (si (int_of_cat e.e_cat)); add (si (int_of_nat e.e_code));
-              add (bit e.e_a02 ^ bit e.e_a98 ^ bit e.e_a98r ^ bit e.e_a99 ^ bit e.e_a99d ^ bit e.e_a99c);
+              add (bit e.e_a02 ^ bit e.e_a98 ^ bit e.e_a98r ^ bit e.e_a99 ^ bit e.e_a99d ^ bit e.e_a99c ^ bit e.e_off);
               add (bits_s e.e_a05)) b.b_entries;
         add (si (List.length b.b_adventries));
         List.iter (function
@@ -177,6 +177,48 @@ let json_run f o =
   | ERR (_, _) -> ("ERR", "-")
   | PANIC -> ("PANIC", "-")
 
+(* request lists: R <n> route* *)
+let parse_body () =
+  match next () with
+  | "J" -> BJson (parse_file ())
+  | "T" -> BText (parse_file ())
+  | "X" -> BNoFile
+  | t -> raise (Bad ("body " ^ t))
+
+let nn () = nat_of_int (next_int ())
+
+let parse_route () =
+  match next () with
+  | "CF" -> let id = nn () in let b = parse_body () in RCreateFile (id, b)
+  | "GS" -> RGetFiles
+  | "PI" -> RPing
+  | "GF" -> RGetFile (nn ())
+  | "BU" -> RBuild (nn ())
+  | "CO" -> RContents (nn ())
+  | "VG" -> RValidateGet (nn ())
+  | "VP" -> RValidatePost (nn ())
+  | "DF" -> RDeleteFile (nn ())
+  | "CB" -> let id = nn () in let d = parse_file () in RCreateBatch (id, d)
+  | "GB" -> RGetBatches (nn ())
+  | "G1" -> RGetBatch (nn (), O)
+  | "DB" -> RDeleteBatch (nn (), O)
+  | "BA" -> let id = nn () in let ok = next () = "1" in let n = nn () in RBalance (id, ok, n)
+  | "SI" -> let id = nn () in let c = nn () in let d = nn () in RSegmentID (id, c, d)
+  | "SE" -> let b = parse_body () in let c = nn () in let d = nn () in RSegment (b, c, d)
+  | "FL" -> let id = nn () in let n = nn () in RFlatten (id, n)
+  | t -> raise (Bad ("route " ^ t))
+
+let parse_routes () =
+  match next () with
+  | "R" -> let n = next_int () in times n parse_route
+  | t -> raise (Bad ("routes " ^ t))
+
+let http_run rs o =
+  match serve rs [] o with
+  | OK (_, r, _) | ERR (r, _) ->
+    ("OK", String.concat " | " (List.sort compare (List.map (fun (_, f) -> print_file f) r)))
+  | PANIC -> ("PANIC", "-")
+
 let split_at_hash l =
   let rec go acc = function
     | [] -> (List.rev acc, [])
@@ -195,9 +237,36 @@ let () =
         toks := Array.of_list shape; pos := 0;
         let out =
           (try
-             let f = parse_file () in
+             let f = if ops = "HTTP" then { f_batches = []; f_iat = [] } else parse_file () in
              let cls = class_name (file_class f) ^ (if wf_file f && not (wf_file_strict f) then "+sec" else "") in
-             if ops = "FromJSON" then begin
+             if ops = "HTTP" then begin
+               toks := Array.of_list shape; pos := 0;
+               let rs = parse_routes () in
+               let impl_shapes = String.concat " " result in
+               let ok (v, sh) = v = impl && (impl = "PANIC" || sh = impl_shapes) in
+               let m = http_run rs [] in
+               let found =
+                 if ok m then "exact"
+                 else begin
+                   let rec go k = if k >= max_single then false else if ok (http_run rs (single k)) then true else go (k + 1) in
+                   if go 0 then "oracle"
+                   else begin
+                     let rec go3 k mask =
+                       if k >= max_single then false else if mask > 7 then go3 (k + 1) 1
+                       else if ok (http_run rs (window k mask)) then true else go3 k (mask + 1) in
+                     if go3 0 1 then "oracle3"
+                     else begin
+                       let rec go2 j k =
+                         if j >= 100 then false else if k >= 100 then go2 (j + 1) (j + 2)
+                         else if ok (http_run rs (pair j k)) then true else go2 j (k + 1) in
+                       if go2 0 1 then "oracle2" else "none"
+                     end
+                   end
+                 end in
+               count ("http " ^ fst m ^ "/" ^ impl ^ "/" ^ found);
+               Buffer.add_string detail (Printf.sprintf "case %s http %s %s\n" id (fst m) found);
+               if found <> "none" then impl else "MODEL=" ^ fst m ^ " stored " ^ snd m
+             end else if ops = "FromJSON" then begin
                let impl_shape = String.concat " " result in
                let (m, mshape) = json_run f [] in
                (* a returned file must have the shape the model computes, under the oracle that reproduces the verdict *)
